@@ -191,8 +191,8 @@ def all_resources(rep, idx):
     if ok:
         v = direct[0][0]
         want = c.parse("ResourceInfo(obj, (self._resources[id(obj)][1],), rng.start, rng.stop, self.data_width)", env)
-        rep.check(v == want, "C03.1", site, "a local resource is reported with its own name, its stored range and the map's data width",
-                  f"yields {ir.show(v)[:140]}")
+        rep.form(v == want, "C03.1", site, "a local resource is reported with its own name, its stored range and the map's data width",
+                 f"yields {ir.show(v)[:140]}", wrong=direct_wrong(c, v, obj, rng))
     if ok2:
         v, conds, gen = through[0]
         inner = [fr[1] for fr in gen if fr[0] == 'for' and fr[1] != L.id]
@@ -202,8 +202,34 @@ def all_resources(rep, idx):
         if child_ok:
             ri = ('item', inner[0], ())
             want = c.norm(('call', c.parse("self._translate"), (ri, obj, c.parse("self._windows[id(obj)][1]", env), rng), ()))
-            rep.check(v == want, "C03.1", site, "children are translated with the window object, its own name and its own stored range",
-                      f"yields {ir.show(v)[:140]}")
+            rep.form(v == want, "C03.1", site, "children are translated with the window object, its own name and its own stored range",
+                     f"yields {ir.show(v)[:140]}", wrong=translate_wrong(v, ri, obj, rng))
+
+
+def direct_wrong(c, v, obj, rng):
+    """Named discrepancies of a directly constructed ResourceInfo."""
+    if v[0] != 'call' or len(v[2]) != 5:
+        return None
+    res, path, start, end, width = v[2]
+    if res != obj:
+        return "another object is reported"
+    if width != c.parse("self.data_width"):
+        return None
+    if rng is not None and (start, end) == (('attr', rng, 'stop'), ('attr', rng, 'start')):
+        return "start and end are swapped"
+    return None
+
+
+def translate_wrong(v, child, window, rng):
+    """Named discrepancies of a _translate(...) call: the window object / range of another entry is passed."""
+    if v[0] != 'call' or len(v[2]) != 4:
+        return None
+    a_child, a_win, a_name, a_rng = v[2]
+    if a_win != window and a_win[0] in ('item', 'name', 'sub'):
+        return "the window object passed is not the window being traversed"
+    if a_rng != rng and a_rng[0] in ('item', 'name') and rng[0] in ('item', 'name'):
+        return "the range passed is not the range stored for that window"
+    return None
 
 
 def find_resource(rep, idx):
@@ -220,8 +246,8 @@ def find_resource(rep, idx):
     if ok:
         want = c.parse("ResourceInfo(resource, (self._resources[id(resource)][1],), self._resources[id(resource)][2].start, "
                        "self._resources[id(resource)][2].stop, self.data_width)")
-        rep.check(direct[0][0] == want, "C03.1", site, "an own resource is reported with its own name, its stored range and the map's data width",
-                  f"returns {ir.show(direct[0][0])[:160]}")
+        rep.form(direct[0][0] == want, "C03.1", site, "an own resource is reported with its own name, its stored range and the map's data width",
+                 f"returns {ir.show(direct[0][0])[:160]}", wrong=direct_wrong(c, direct[0][0], ('name', 'resource'), None))
     if len(through) != 1:
         rep.bad("C03.4", site, "windows are searched next", f"{len(through)} translated result(s)")
         return
@@ -238,8 +264,9 @@ def find_resource(rep, idx):
         w, wn, wr = ('item', Lw, (0,)), ('item', Lw, (1,)), ('item', Lw, (2,))
         want = c.norm(('call', c.parse("self._translate"),
                        (('call', ('attr', w, 'find_resource'), (('name', 'resource'),), ()), w, wn, wr), ()))
-        rep.check(v == want, "C03.1", site, "a resource found behind a window is translated with that window, its name and its stored range",
-                  f"returns {ir.show(v)[:160]}")
+        rep.form(v == want, "C03.1", site, "a resource found behind a window is translated with that window, its name and its stored range",
+                 f"returns {ir.show(v)[:160]}",
+                 wrong=translate_wrong(v, ('call', ('attr', w, 'find_resource'), (('name', 'resource'),), ()), w, wr))
     # a miss in one window moves on to the next one
     handlers = [h for n in ast.walk(c.fi.node) if isinstance(n, ast.Try) for h in n.handlers]
     moves_on = bool(handlers) and all(all(isinstance(s, (ast.Pass, ast.Continue)) for s in h.body) for h in handlers)
